@@ -261,8 +261,8 @@ def model_line(cid, proto, vals, rets, vals_addr):
             ws = ['%016x' % int.from_bytes(bb[8 * k:8 * k + 8], 'little') for k in range(n)]
         toks.append('%s=%s' % (t, ','.join(ws)))
     r = ['%016x' % rets[k] for k in ('rax', 'rdx', 'xmm0', 'xmm1')]
-    return '%s %d args %s res %s ret %s' % (cid, 1 if proto['vararg'] else 0, ' '.join(toks), ' '.join(proto['res']),
-                                            ' '.join(r))
+    return '%s %s args %s res %s ret %s' % (cid, ('v%d' % proto['nfixed']) if proto['vararg'] else '0', ' '.join(toks),
+                                            ' '.join(proto['res']), ' '.join(r))
 
 
 def parse_model(line):
